@@ -94,6 +94,7 @@ TWICE = ('list-head', 'len-head', 'tuple-rowslice')
 # *usingcontext operators see "no next row"): the period argument below does
 # not apply to pipelines containing them
 END_SENSITIVE = ('addcolumn', 'addcolumn-view', 'annex', 'cat', 'stack',
+                 'cat-after-short',
                  'selectusingcontext', 'addfieldusingcontext', 'unflatten')
 
 
